@@ -78,6 +78,22 @@ pub struct MP {
     pub b: String,
 }
 
+/// a form with files: one text field, one optional file, any number of files under one name
+#[derive(Debug, Deserialize)]
+pub struct UP<'req> {
+    pub note: &'req str,
+    #[serde(borrow)]
+    pub attachment: Option<ohkami::format::File<'req>>,
+    #[serde(borrow)]
+    pub files: Vec<ohkami::format::File<'req>>,
+}
+fn file_json(f: &ohkami::format::File<'_>) -> Value {
+    json!({"filename": f.filename, "mimetype": f.mimetype, "content": crate::client::hex(f.content)})
+}
+async fn h_upload(Multipart(u): Multipart<UP<'_>>) -> Response {
+    ran(json!({"up": {"note": u.note, "attachment": u.attachment.as_ref().map(file_json), "files": u.files.iter().map(file_json).collect::<Vec<_>>()}}))
+}
+
 fn ran(v: Value) -> Response {
     Response::OK().with_text(v.to_string()).with_headers(|h| h.x("X-Ran", "1"))
 }
@@ -168,6 +184,7 @@ fn build_app() -> Ohkami {
                 let r = ran(json!({"t": s}));
                 async move { r }
             }),
+        "/upload".POST(h_upload),
         "/multi".POST(|Multipart(m): Multipart<MP>| {
             let r = ran(json!({"m": m}));
             async move { r }
@@ -534,7 +551,49 @@ fn gen_req() -> Req {
             let a = t::string(b"abc xyz019", 0, 10);
             let b = t::pick(&["", "v", "line1\r\nline2", "caf\u{e9}"]);
             let boundary = t::pick(&["----WebKitFormBoundary7MA4YWxkTrZu0gW", "xyz", "a-b_c123"]);
-            match t::weighted(&[4, 1, 1, 1, 1]) {
+            match t::weighted(&[4, 1, 1, 1, 1, 3]) {
+                5 => {
+                    // files: an optional one (present, present with no bytes at all, or the part a browser sends for an
+                    // input left empty) and a list of 0..3 under one name; a file of zero bytes is a file
+                    const NAMES: [&str; 6] = [".gitkeep", "__init__.py", "a.txt", "\u{65e5}\u{672c}.png", "x y.bin", "report.final.pdf"];
+                    const MIMES: [&str; 4] = ["text/plain", "application/octet-stream", "image/png", "text/x-python"];
+                    let content = |max: usize| -> Vec<u8> {
+                        let n = t::pick(&[0usize, 0, 1, 2, 17, 300, 1000]).min(max);
+                        (0..n).map(|_| { let b = t::draw(256) as u8; if b == b'-' { b'_' } else { b } }).collect()
+                    };
+                    let part = |name: &str, file: Option<(&str, &str, &[u8])>| -> Vec<u8> {
+                        // None: the input was left empty (`filename=""`, no bytes)
+                        let (fname, mime, bytes) = file.unwrap_or(("", "application/octet-stream", b""));
+                        let cd = format!("Content-Disposition: form-data; name=\"{name}\"; filename=\"{fname}\"\r\n");
+                        let ct = format!("Content-Type: {mime}\r\n");
+                        let mut v = format!("--{boundary}\r\n").into_bytes();
+                        if t::chance(1, 4) {
+                            v.extend_from_slice(ct.as_bytes());
+                            v.extend_from_slice(cd.as_bytes());
+                        } else {
+                            v.extend_from_slice(cd.as_bytes());
+                            v.extend_from_slice(ct.as_bytes());
+                        }
+                        v.extend_from_slice(b"\r\n");
+                        v.extend_from_slice(bytes);
+                        v.extend_from_slice(b"\r\n");
+                        v
+                    };
+                    let note = a.clone();
+                    let att: Option<(&str, &str, Vec<u8>)> = if t::chance(1, 4) { None } else { Some((t::pick(&NAMES), t::pick(&MIMES), content(1000))) };
+                    let files: Vec<(&str, &str, Vec<u8>)> = (0..t::weighted(&[1, 3, 3, 2])).map(|_| (t::pick(&NAMES), t::pick(&MIMES), content(1000))).collect();
+                    let mut groups: Vec<Vec<u8>> = Vec::new();
+                    groups.push(format!("--{boundary}\r\nContent-Disposition: form-data; name=\"note\"\r\n\r\n{note}\r\n").into_bytes());
+                    groups.push(part("attachment", att.as_ref().map(|(n, m, c)| (*n, *m, c.as_slice()))));
+                    groups.push(if files.is_empty() { part("files", None) } else { files.iter().flat_map(|(n, m, c)| part("files", Some((*n, *m, c.as_slice())))).collect() });
+                    t::shuffle(&mut groups);
+                    let mut body: Vec<u8> = groups.concat();
+                    body.extend_from_slice(format!("--{boundary}--\r\n").as_bytes());
+                    let fj = |(n, m, c): &(&str, &str, Vec<u8>)| json!({"filename": n, "mimetype": m, "content": crate::client::hex(c)});
+                    let what = if att.as_ref().map(|x| x.2.is_empty()).unwrap_or(false) || files.iter().any(|f| f.2.is_empty()) { "multipart-files-one-of-zero-bytes" } else { "multipart-files" };
+                    let expect = json!({"up": {"note": note, "attachment": att.as_ref().map(fj), "files": files.iter().map(fj).collect::<Vec<_>>()}});
+                    mk("POST", "/upload".into(), Some(&format!("multipart/form-data; boundary={boundary}")), Some(body), "valid", "upload", what, Some(expect))
+                }
                 3 => {
                     // the boundary text in the middle of a line of a value is content, not a delimiter (a delimiter starts a
                     // line); a parser may refuse such a body, but must not cut the value there
@@ -769,6 +828,8 @@ fn execute(sc: &Scenario, out: &mut Outcome) {
                     ("two", _) => out.probe("c07.two_params"),
                     ("json", _) => out.probe("c07.json_valid"),
                     ("multi", _) => out.probe("c07.multipart_valid"),
+                    ("upload", "multipart-files-one-of-zero-bytes") => out.probe("c07.multipart_file_of_zero_bytes"),
+                    ("upload", _) => out.probe("c07.multipart_files"),
                     ("q", _) => out.probe("c07.query_valid"),
                     ("form", _) => out.probe("c07.form_valid"),
                     _ => {}
